@@ -180,7 +180,10 @@ def h_wmedian(ctx, n, equal=False, nan_at=None, zero_w=False):
         data.insert(nan_at, float("nan"))
         wd.insert(nan_at, 1.0)
     m = D.weighted_median(arr(data), arr(wd))
-    ctx.observe("m", m)
+    if equal or n <= 3:
+        # (with four free weights some paths live inside the implementation's 2.2e-16 tie
+        # tolerance, where no float64 assignment follows the same path: claims only)
+        ctx.observe("m", m)
     half = Sum(ws) / 2
     below = Sum([If(x < m, w, 0) for x, w in zip(xs, ws)])
     above = Sum([If(x > m, w, 0) for x, w in zip(xs, ws)])
